@@ -50,7 +50,8 @@ class Env(object):
         with orm.db_session:
             model.populate(self.E)
         self.fixtures['populated'] = self.dump()
-        self.seq = {'empty': [], 'populated': self.raw.execute('select name, seq from sqlite_sequence').fetchall() if self.has_seq else []}
+        self.fixtures['populated-seeds'] = self.fixtures['populated']     # same rows; sessions start with a navigation prelude
+        self.seq = {'empty': [], 'populated-seeds': self.raw.execute('select name, seq from sqlite_sequence').fetchall() if self.has_seq else [], 'populated': self.raw.execute('select name, seq from sqlite_sequence').fetchall() if self.has_seq else []}
         self.roots = {}
         for name, e in self.E.items():
             self.roots[name] = e._root_.__name__
@@ -348,7 +349,7 @@ class Exec(object):
         self.died = False         # the last exception rolled the session cache back
         env.reset(fixture)
         self.dumps = [] if track_dumps else None      # [dump before the last operation, dump after it]
-        if fixture == 'populated' and env.model.opts.get('pk') == 'auto':
+        if fixture.startswith('populated') and env.model.opts.get('pk') == 'auto':
             for root in env.root_entities: self.created[root] = 2
         dbapi.ENV.reset(log=self.sql if record_sql else None)
         self.enter()
@@ -358,6 +359,36 @@ class Exec(object):
         self.sess = self.orm.db_session()
         self.sess.__enter__()
         self.refs = {}
+        if self.fixture == 'populated-seeds': self.prelude()
+    def prelude(self):
+        """the program first fetches every object that holds a reference column and navigates the
+        reference: the referenced objects are then known to the session as unloaded seeds, and no
+        later operand look-up needs a query (so nothing auto-flushes between the operations)"""
+        from pony.orm.core import Entity
+        E = self.env.E
+        def ref_attrs(e):
+            out = []
+            for cls in [e] + list(e._subclasses_):
+                out += [a for a in cls._new_attrs_ if a.reverse and not a.is_collection and a.columns]
+            return out
+        targets = {}                                 # root entity -> set of root entities that reference it by a column
+        for root in self.env.root_entities:
+            for a in ref_attrs(E[root]):
+                targets.setdefault(a.py_type._root_.__name__, set()).add(root)
+        for root in self.env.root_entities:
+            incoming = targets.get(root, set())
+            if incoming - {root}: continue           # reached by navigation from another entity: stays a seed
+            labels = self.env.labels_of(root)
+            if root in incoming: labels = labels[1:]  # self-referencing: fetch the second object, meet the first as a seed
+            for label in labels:
+                try: obj = self.resolve(label)
+                except Skip: continue
+                for a in ref_attrs(E[root]):
+                    if not hasattr(type(obj), a.name): continue
+                    v = getattr(obj, a.name)
+                    if isinstance(v, Entity):
+                        l = self.label_of(v)
+                        if l not in self.refs: self.remember(l, v)
     def leave(self, exc=None):
         s, self.sess = self.sess, None
         self.refs = {}
@@ -410,7 +441,7 @@ class Exec(object):
         e = self.env.E[ename]
         pk = self.label2pk.get(label)
         if pk is None:
-            if self.env.model.opts.get('pk') == 'auto' and int(key) > 2 and self.fixture == 'populated' or \
+            if self.env.model.opts.get('pk') == 'auto' and int(key) > 2 and self.fixture.startswith('populated') or \
                self.env.model.opts.get('pk') == 'auto' and self.fixture == 'empty':
                 raise Skip(label)         # auto-pk object that was never flushed / never created
             pk = int(key) if ',' not in key else tuple(int(k) for k in key.split(','))
@@ -614,7 +645,7 @@ class Exec(object):
             key = label.split(':')[1]
             if self.env.model.opts.get('pk') == 'auto':
                 # an object that has no primary key yet cannot be looked up by key
-                if label not in self.refs and not (self.fixture == 'populated' and int(key) <= 2): raise Skip(label)
+                if label not in self.refs and not (self.fixture.startswith('populated') and int(key) <= 2): raise Skip(label)
                 if label in self.refs:
                     pk = self.refs[label]._pkval_
                     if pk is None: raise Skip(label)
@@ -833,7 +864,7 @@ class Explorer(object):
         finally: x.finish()
 
 # ---- running a per-model worker over the catalogue in parallel -----------------------------------
-def run_catalogue(ctx, worker, tier=None, models=None):
+def run_catalogue(ctx, worker, tier=None, models=None, fixtures=('populated', 'empty')):
     """worker(args) with args=(model_name, tier, seed, fixture) is a module-level function returning
     dict(sub=Sub.dump(), states=, transitions=, executions=). One task per (model, fixture), largest
     models first. Returns the aggregate."""
@@ -842,7 +873,7 @@ def run_catalogue(ctx, worker, tier=None, models=None):
     if os.environ.get('VF_MODELS'):      # debugging aid: restrict to some models (the run is then marked non-exhaustive)
         names = [n for n in names if n in os.environ['VF_MODELS'].split(',')]
         ctx.cap('VF_MODELS restricts the catalogue to %s' % names)
-    items = [(n, ctx.tier, ctx.seed, f) for n in names for f in ('populated', 'empty')]
+    items = [(n, ctx.tier, ctx.seed, f) for n in names for f in fixtures]
     items.sort(key=lambda it: (it[3] != 'populated', -len(it[0])))
     results = ctx.pmap(worker, items)
     agg = dict(states=0, transitions=0, executions=0, per_model={})
@@ -991,4 +1022,4 @@ def latent_conflict(fixture, hist):
     """the history creates an object under a primary key that already exists in the database but is
     not loaded: a latent key conflict that Pony can only report at flush (C14). Labels then denote
     two different things, so view-based monitors skip such states."""
-    return fixture == 'populated' and any(op[0] == 'create' and op[2] in (1, 2) for op in hist)
+    return fixture.startswith('populated') and any(op[0] == 'create' and op[2] in (1, 2) for op in hist)
